@@ -58,7 +58,16 @@ def case_strategy(draw, tier="quick"):
                     # contiguous range form: use a single record (ranges of one rank are strided by k)
                     rr = rr[:1]
                 per[str(r)] = rr
-            events.append({"ev": "coll_put", "v": v, "form": form, "recs": per})
+            e = {"ev": "coll_put", "v": v, "form": form, "recs": per}
+            if form == "varn":
+                # order of the segments in the request; 'block' = every rank owns two consecutive records (one multi-record
+                # segment) and, optionally, one higher single record
+                e["order"] = draw(st.sampled_from(["asc", "desc", "hi_first"]))
+                if draw(st.integers(0, 2)) == 0:
+                    e["recs"] = {str(r): [2 * r, 2 * r + 1] + ([2 * k + r] if 2 * k + r < MAXREC and draw(st.booleans()) else [])
+                                 for r in range(k)}
+                    e["block"] = 1
+            events.append(e)
         elif ev == "fill":
             events.append({"ev": "fill", "v": v, "rec": draw(st.integers(0, MAXREC - 1))})
         elif ev == "iput":
@@ -72,7 +81,7 @@ def case_strategy(draw, tier="quick"):
                     continue
                 rid += 1
                 pend[r].append((rid, v, rr))
-                events.append({"ev": "iput", "rank": r, "v": v, "recs": rr, "id": rid})
+                events.append({"ev": "iput", "rank": r, "v": v, "recs": rr, "id": rid, "order": draw(st.sampled_from(["asc", "desc", "hi_first"]))})
         elif ev in ("wait_all", "wait"):
             per = {}
             ranks = range(k) if ev == "wait_all" else draw(st.lists(st.integers(0, k - 1), min_size=1, max_size=k, unique=True))
@@ -90,7 +99,7 @@ def case_strategy(draw, tier="quick"):
                 indep = True
             writers = draw(st.lists(st.integers(0, k - 1), min_size=1, max_size=k, unique=True))
             per = {str(r): recs_for(r) for r in writers}
-            events.append({"ev": "indep_put", "v": v, "recs": per})
+            events.append({"ev": "indep_put", "v": v, "recs": per, "order": draw(st.sampled_from(["asc", "desc", "hi_first"]))})
         elif ev == "sync":
             how = draw(st.sampled_from(["end_indep", "sync", "sync_numrecs", "reopen"] if indep else ["sync", "sync_numrecs", "reopen"]))
             if how == "reopen" and any(pend[r] for r in range(k)):
@@ -108,6 +117,23 @@ def vals_for(v, rec, step):
     n = X if len(dims) == 2 else 1
     base = (step * 100 + rec * 7 + v) % 20000
     return [base + j for j in range(n)]
+
+
+def varn_segs(recs, order, nd2):
+    """segments of a varn request over the records recs: runs of consecutive records form ONE multi-record segment; the
+    segments are listed ascending, descending, or with the highest one first -> (records in buffer order, starts, counts)"""
+    groups = []
+    for rec in sorted(recs):
+        if groups and groups[-1][-1] + 1 == rec:
+            groups[-1].append(rec)
+        else:
+            groups.append([rec])
+    if order == "desc":
+        groups.reverse()
+    elif order == "hi_first" and len(groups) > 1:
+        groups = [groups[-1]] + groups[:-1]
+    flat = [r for g in groups for r in g]
+    return flat, [[g[0], 0] if nd2 else [g[0]] for g in groups], [[len(g), X] if nd2 else [len(g)] for g in groups]
 
 
 def pack(v, vals):
@@ -204,10 +230,16 @@ def build(case):
             tops = []
             for r in range(k):
                 recs = ev["recs"].get(str(r), [])
+                nd2 = len(VARS[v][2]) == 2
+                if form == "varn":
+                    recs, seg_st, seg_cn = varn_segs(recs, ev.get("order", "asc"), nd2)
+                    if any(c[0] > 1 for c in seg_cn):
+                        labels.add("varn_multi_record_segment")
+                    if len(seg_st) > 1 and seg_st[0][0] > seg_st[-1][0]:
+                        labels.add("varn_segments_not_ascending")
                 vals = sum([vals_for(v, rec, step) for rec in recs], [])
                 b = p.newbuf()
                 p.s.op("buf", ranks=[r], b=b, size=max(1, len(vals) * M.XT_SIZE[VARS[v][1]]), hex=pack(v, vals) if vals else b"\xee")
-                nd2 = len(VARS[v][2]) == 2
                 kw = {}
                 if form == "vara":
                     st0, cn0 = (recs[0], 1) if recs else (0, 0)
@@ -216,8 +248,7 @@ def build(case):
                     st0, cn0 = (recs[0], len(recs)) if recs else (0, 0)
                     kw.update(start=[st0, 0] if nd2 else [st0], count=[cn0, X] if nd2 else [cn0], stride=[k, 1] if nd2 else [k])
                 elif form == "varn":
-                    kw.update(num=len(recs), starts=[[rec, 0] if nd2 else [rec] for rec in recs] if recs else None,
-                              counts=[[1, X] if nd2 else [1] for rec in recs] if recs else None)
+                    kw.update(num=len(seg_st), starts=seg_st if recs else None, counts=seg_cn if recs else None)
                 elif form == "vard":
                     t = p.newtype()
                     prim = M.MT_PRIM[M.XT_NATIVE_MT[VARS[v][1]]]
@@ -248,13 +279,15 @@ def build(case):
             header_check("fill_var_rec")
         elif kind == "iput":
             r, v = ev["rank"], ev["v"] % nv
-            recs = ev["recs"]
             nd2 = len(VARS[v][2]) == 2
+            recs, seg_st, seg_cn = varn_segs(ev["recs"], ev.get("order", "asc"), nd2)
+            if len(seg_st) > 1 and seg_st[0][0] > seg_st[-1][0]:
+                labels.add("varn_segments_not_ascending")
             vals = sum([vals_for(v, rec, step) for rec in recs], [])
             b, q = p.newbuf(), p.newreq()
             p.s.op("buf", ranks=[r], b=b, size=len(vals) * M.XT_SIZE[VARS[v][1]], hex=pack(v, vals))
             n = p.s.op("data", ranks=[r], api="iput", form="varn", coll=0, mt=M.XT_NATIVE_MT[VARS[v][1]], f="f0", v=vid[v], buf=b, req=q,
-                       num=len(recs), starts=[[rec, 0] if nd2 else [rec] for rec in recs], counts=[[1, X] if nd2 else [1] for rec in recs])
+                       num=len(seg_st), starts=seg_st, counts=seg_cn)
             p.expect_rc(n, [r], 0, "iput_varn")
             pend[r][ev["id"]] = (v, recs, step, q)
             order[r].append(ev["id"])
@@ -301,11 +334,14 @@ def build(case):
                 r = int(rs)
                 if not recs:
                     continue
+                recs, seg_st, seg_cn = varn_segs(recs, ev.get("order", "asc"), nd2)
+                if len(seg_st) > 1 and seg_st[0][0] > seg_st[-1][0]:
+                    labels.add("varn_segments_not_ascending")
                 vals = sum([vals_for(v, rec, step) for rec in recs], [])
                 b = p.newbuf()
                 p.s.op("buf", ranks=[r], b=b, size=len(vals) * M.XT_SIZE[VARS[v][1]], hex=pack(v, vals))
                 n = p.s.op("data", ranks=[r], api="put", form="varn", coll=0, mt=M.XT_NATIVE_MT[VARS[v][1]], f="f0", v=vid[v], buf=b,
-                           num=len(recs), starts=[[rec, 0] if nd2 else [rec] for rec in recs], counts=[[1, X] if nd2 else [1] for rec in recs])
+                           num=len(seg_st), starts=seg_st, counts=seg_cn)
                 p.expect_rc(n, [r], 0, "independent put_varn")
                 for rec in recs:
                     apply_completed(v, rec, step)
